@@ -142,3 +142,53 @@ Theorem C14_sharing_clone_refuted :
        In l (locs kc) -> abs (write_label_h h1 l c) k = abs h k).
 Proof. exact KExamples.sharing_clone_refutes_independence. Qed.
 Print Assumptions C14_sharing_clone_refuted.
+
+(* ---------------------------------------------------------------------------------- *)
+From Coq Require Import List String. Import ListNotations.
+From PMC Require Import Spec.GraphSpec Spec.Semantics Spec.Lemmas Model.Kripke Model.GraphOps Proofs.KripkeP.
+From PMC Require Import Model.KripkeOps Proofs.KripkeOpsP.
+
+(* structures edited after construction (Model/KripkeOps.v; fix 8bf41ed): any sequence of
+   Kripke.add_node / Kripke.add_edge calls - the caller catching the documented RuntimeError
+   and going on - keeps ONE LABEL ENTRY PER STATE: `self._labels[s]` cannot raise for a state,
+   old states keep their labels, new states carry none, the initial states are untouched and
+   the graph is the one DiGraph.add_node / add_edge build (C13_mutator_histories) *)
+Theorem C14_added_states_are_labelled : forall K ops,
+  wf_graph (kg K) -> map fst (klab K) = states K ->
+  let K' := run_kops K ops in
+  map fst (klab K') = states K' /\
+  (forall s, In s (states K') -> label_entry K' s = Ok (labels_of K s)) /\
+  (forall s, labels_of K' s = labels_of K s) /\
+  (forall s, In s (states K) -> In s (states K')) /\
+  kinit K' = kinit K /\ kg K' = fst (run_gops (kg K) ops) /\ wf_graph (kg K').
+Proof.
+  intros K ops WF HL K'. subst K'.
+  destruct (run_kops_spec ops K WF HL) as (A & B & C & D & M & L).
+  split; [exact B|]. split; [intros s Hs; apply grown_label_entry; assumption|].
+  split; [exact L|]. split; [exact M|]. split; [exact C|]. split; [exact D|exact A].
+Qed.
+Print Assumptions C14_added_states_are_labelled.
+
+(* ... so a grown structure that is total again satisfies the invariant of constructed
+   structures, and every theorem about constructed structures (C01-C07, C15, C19) applies *)
+Theorem C14_grown_structure_is_wellformed : forall K ops,
+  wf_K K -> total (run_kops K ops) -> wf_K (run_kops K ops).
+Proof. exact grown_wf_K. Qed.
+Print Assumptions C14_grown_structure_is_wellformed.
+
+(* the behaviour before the fix - the graph grows, the labelling does not - loses the entry
+   of the first new state: K = Kripke(R=[(0,1),(1,0)], L={0:{p},1:{p}}); add_edge(1,2);
+   add_edge(2,2) is total, and `self._labels[2]` raises *)
+Theorem C14_unlabelled_growth_refuted :
+  wf_K KripkeOpsExamples.K0 /\
+  run_kops KripkeOpsExamples.K0 KripkeOpsExamples.ops =
+    mkK [(0, [1]); (1, [0; 2]); (2, [2])] [] [(0, ["p"%string]); (1, ["p"%string]); (2, [])] /\
+  label_entry (run_kops KripkeOpsExamples.K0 KripkeOpsExamples.ops) 2 = Ok [] /\
+  label_entry (run_kops_nolabel KripkeOpsExamples.K0 KripkeOpsExamples.ops) 2 = RuntimeErr /\
+  ~ (forall K o K', map fst (klab K) = states K -> kapply_nolabel K o = Ok K' -> map fst (klab K') = states K').
+Proof.
+  destruct KripkeOpsExamples.grown as (A & B & C & _).
+  split; [exact KripkeOpsExamples.K0_wf|]. split; [exact A|]. split; [exact B|]. split; [exact C|].
+  exact KripkeOpsExamples.nolabel_not_complete.
+Qed.
+Print Assumptions C14_unlabelled_growth_refuted.
